@@ -280,7 +280,7 @@ def check_c05(case, stats):
 
 
 CHECKS = {'check_c05': check_c05}
-_B = {'quick': 30, 'thorough': 240}
+_B = {'quick': 30, 'thorough': 360}
 
 
 def shards(tier):
